@@ -26,8 +26,9 @@
 EXTENDS Cfg
 R == INSTANCE RegexSurface
 
-MkLexeme(ast) ==
-    LET r == R!CompileTop(ast) IN [rx |-> r, live |-> R!LiveOf(r), reps |-> R!Reps(r)]
+MkLexemeZ(ast, lazy) ==
+    LET r == R!CompileTop(ast) IN [rx |-> r, live |-> R!LiveOf(r), reps |-> R!Reps(r), lazy |-> lazy]
+MkLexeme(ast) == MkLexemeZ(ast, FALSE)
 
 DeadSt == [dead |-> TRUE, chart |-> << {} >>, cur |-> <<>>, started |-> FALSE]
 
@@ -50,6 +51,12 @@ Derive(L, cur, b) ==
 Matching(cur) == {i \in DOMAIN cur : R!Nullable(cur[i])}
 CannotExtend(L, i, d) == \A b \in L[i].reps : R!D(d, b) \notin L[i].live
 AllEnded(L, cur) == DOMAIN cur # {} /\ \A i \in DOMAIN cur : R!Nullable(cur[i]) /\ CannotExtend(L, i, cur[i])
+(* LAZY lexemes (`T[lazy]: /../`, regexvec.rs lowest_match_inner): as soon as some lazy lexeme matches, the lexeme  *)
+(* ends with this byte and exactly the matching LAZY lexemes are handed to the parser (greedy ones that match too *)
+(* are not); otherwise it ends only when every survivor matches and none can be extended.                        *)
+LazyMatching(L, cur) == {i \in DOMAIN cur : L[i].lazy /\ R!Nullable(cur[i])}
+EndsNow(L, cur) ==
+    LET lz == LazyMatching(L, cur) IN IF lz # {} THEN lz ELSE IF AllEnded(L, cur) THEN DOMAIN cur ELSE {}
 
 (* hand a set of lexemes to the parser: every item expecting one of them advances *)
 Scan(G, chart, S) ==
@@ -63,7 +70,7 @@ EmitS(G, L, chart, S, skip) ==
     ELSE LET c2 == Scan(G, chart, S) IN IF Dead(c2) THEN DeadSt ELSE StartLexS(L, c2, skip)
 
 AfterByteS(G, L, chart, cur2, skip) ==
-    IF AllEnded(L, cur2) THEN EmitS(G, L, chart, DOMAIN cur2, skip)
+    IF EndsNow(L, cur2) # {} THEN EmitS(G, L, chart, EndsNow(L, cur2), skip)
     ELSE [dead |-> FALSE, chart |-> chart, cur |-> cur2, started |-> TRUE]
 
 StepByteS(G, L, st, b, skip) ==
